@@ -26,6 +26,7 @@ SPAS = [
     (b"SPA10:11:12:13:14:15", "Spa|Two", ("10.0.0.12", 10022)),
     (b"SPA20:21:22:23:24:25", "Caf\xe9 \xdcber", ("10.0.0.13", 10022)),
     (b"SPA30:31:32:33:34:35", "", ("10.0.0.14", 10022)),
+    (b"SPA\xe9\x01\xfe:27", "Latin id", ("10.0.0.15", 10022)),  # identifier bytes >= 0x80 (latin-1 text on the API side)
 ]
 LAT = [0.05, 0.95, 3.95, 4.05, 9.95, 10.05]
 FILTERS = ["none", "address", "id", "other-id", "address+id"]
@@ -68,7 +69,7 @@ def _run(ch, spas, filt, window):
     if filt in ("address", "address+id"):
         kw["spa_address"] = target.addr[0] if target else "10.0.0.99"
     if filt in ("id", "address+id"):
-        kw["spa_identifier"] = (target.id if target else b"SPA99").decode()
+        kw["spa_identifier"] = (target.id if target else b"SPA99").decode("latin1")
     if filt == "other-id":
         kw["spa_identifier"] = "SPA99:99:99:99:99:99"
     with loop.running():
@@ -92,7 +93,7 @@ def _run(ch, spas, filt, window):
         n_dgrams = len(arrivals)
 
         def passes(r):
-            return "spa_identifier" not in kw or kw["spa_identifier"] == r.id.decode()
+            return "spa_identifier" not in kw or kw["spa_identifier"] == r.id.decode("latin1")
 
         acc = [(a, r) for a, r in arrivals if passes(r)]
         slack = POLL * (3 + min(n_dgrams, 8)) + window * 2
@@ -167,7 +168,7 @@ def _job(job):
             names = [SPAS[i][1] for i, _, _ in spas]
             cls = "pipe-in-name" if any("|" in n for n in names) else "plain"
             viol.append((f"C15|{why[0]}|{cls}|filter={filt}",
-                         f"spas {[(SPAS[i][0].decode(), SPAS[i][1], lat, m) for i, lat, m in spas]} filter={filt}: {why[1]}",
+                         f"spas {[(SPAS[i][0].decode('latin1'), SPAS[i][1], lat, m) for i, lat, m in spas]} filter={filt}: {why[1]}",
                          {"spas": [list(s) for s in spas], "filter": filt, "window": window,
                           "prefix": [list(p) for p in ch.trace]}))
         return {"violations": viol, "obs": obs, "end": obs}
@@ -181,11 +182,11 @@ def run(ctx):
     lats2 = LAT
     for f in FILTERS:
         plans.append(((), f, 0.0))
-        for i in range(4):
+        for i in range(len(SPAS)):
             for lat in LAT:
                 for m in (1, 2):
                     plans.append((((i, lat, m),), f, 0.0))
-        for i, j in itertools.permutations(range(4), 2):
+        for i, j in itertools.permutations(range(len(SPAS)), 2):
             for la, lb in itertools.product(lats2, repeat=2):
                 plans.append((((i, la, 1), (j, lb, 1)), f, 0.0))
                 if la == lb:
